@@ -38,7 +38,9 @@ patch("runtime/rand.go", [
 // duration of one simulated run; 0 = normal randomised behaviour.
 var verifMapSeed uint64
 
-var verifTimerSeq uint32"""),
+var verifTimerSeq uint32
+
+var verifSelectSeq uint64"""),
     ("""func rand32() uint32 {""", """func rand32() uint32 {
 	if s := verifMapSeed; s != 0 {
 		return uint32(s)
@@ -55,6 +57,21 @@ patch("runtime/time.go", [
 			} else {
 				t.rand = cheaprand()
 			}"""),
+])
+# select with several ready cases picks one at random; under the simulator the poll order is a
+# function of the run seed and of the number of selects executed so far
+patch("runtime/select.go", [
+    ("""		j := cheaprandn(uint32(norder + 1))""", """		var j uint32
+		if verifMapSeed != 0 && getg().bubble != nil {
+			verifSelectSeq++
+			x := verifMapSeed + verifSelectSeq*0x9e3779b97f4a7c15
+			x ^= x >> 31
+			x *= 0xbf58476d1ce4e5b9
+			x ^= x >> 29
+			j = uint32(x>>33) % uint32(norder+1)
+		} else {
+			j = cheaprandn(uint32(norder + 1))
+		}"""),
 ])
 # sync.Map (HashTrieMap) seed from the same source
 patch("internal/sync/hashtriemap.go", [
